@@ -295,3 +295,63 @@ Proof.
   exists p. split; [reflexivity|].
   exact (Frag2Glue.frag2_compile_correct_lemma prog8 p (proj1 progs_in_frag2) E).
 Qed.
+
+(* ---- the fragment F3: reads of undefined globals ---- *)
+From GL Require Import CC.Frag3Sem.
+From GL Require CC.CompFactsVM3 CC.Frag3Facts CC.Frag3Eval CC.Frag3Glue.
+Definition gG0 : name := [71; 48]. Definition g_print : name := [112; 114; 105; 110; 116]. Definition g_type : name := [116; 121; 112; 101].
+
+(* local a = G0; local s, b = "x", not G0; a = G0 + 1     (nil + 1: the fault of line 3) *)
+Definition prog11 : list stmt :=
+  [SLocal 1 [va] [EVar gG0]; SLocal 2 [vs; vb] [EStr str_x; EUn ONot (EVar gG0)];
+   SAssign 3 [EVar va] [EBin OAdd (EVar gG0) (ENum 1)]; SReturn 4 [EVar va]].
+
+(* local a, b = G0, 2; return a, b, G0, not G0, (G0) *)
+Definition prog12 : list stmt :=
+  [SLocal 1 [va; vb] [EVar gG0; ENum 2];
+   SReturn 2 [EVar va; EVar vb; EVar gG0; EUn ONot (EVar gG0); EParen (EVar gG0)]].
+
+(* a defined global (`type` is a key of the initial global table) is outside F3 *)
+Definition prog13 : list stmt := [SReturn 1 [EVar g_type]].
+
+Example progs_in_frag3 :
+  in_frag3 prog11 = true /\ in_frag3 prog12 = true /\ in_frag3 prog13 = false /\
+  in_frag2 prog11 = false /\ in_frag2 prog12 = false /\ in_frag3 prog8 = true /\ in_frag3 prog1 = true /\
+  tie_frag prog11 = true /\ tie_frag prog12 = true /\
+  undefined_global gG0 = true /\ undefined_global g_type = false /\ undefined_global g_print = true.
+Proof. vm_compute. repeat split; reflexivity. Qed.
+
+Example progs3_compile : (exists p, compile_frag prog11 = Some p) /\ (exists p, compile_frag prog12 = Some p).
+Proof. split; eexists; vm_compute; reflexivity. Qed.
+
+Example prog12_has_getglobal : existsb (fun w => is_opc w OP_GETGLOBAL) (xp_code (compiled prog12)) = true.
+Proof. vm_compute. reflexivity. Qed.
+
+Example prun3_values :
+  prun3 [] prog11 = CFault 3 /\ prun3 [] prog12 = CRet [VNil; VNum 2; VNil; VBool true; VNil].
+Proof. vm_compute. split; reflexivity. Qed.
+
+Example prog11_equation :
+  vm_outcome (compiled prog11) = outcome_of (run_program fuel no_devs prog11) /\
+  vm_outcome (compiled prog11) = Outcome [] (OErr (OFault 2 3)).
+Proof. vm_compute. split; reflexivity. Qed.
+
+Example prog12_equation :
+  vm_outcome (compiled prog12) = outcome_of (run_program fuel no_devs prog12) /\
+  vm_outcome (compiled prog12) = Outcome [] (OOk [ONil; ONum 2; ONil; OBool true; ONil]).
+Proof. vm_compute. split; reflexivity. Qed.
+
+Example isem3_is_prun3 :
+  isem3_code (fst (ucode prog11)) (snd (ucode prog11)) [] = prun3 [] prog11 /\
+  isem3_code (fst (ucode prog12)) (snd (ucode prog12)) [] = prun3 [] prog12.
+Proof. vm_compute. split; reflexivity. Qed.
+
+Example frag3_compile_correct_applies : exists p, compile_frag prog12 = Some p /\
+  exists n, forall fuel, (n <= fuel)%nat ->
+    is_skip (outcome_of (run_program fuel no_devs prog12)) = false ->
+    outcome_of_vfin (run_proto fuel p) = outcome_of (run_program fuel no_devs prog12).
+Proof.
+  destruct (compile_frag prog12) as [p|] eqn:E; [|vm_compute in E; discriminate].
+  exists p. split; [reflexivity|].
+  exact (Frag3Glue.frag3_compile_correct_lemma prog12 p (proj1 (proj2 progs_in_frag3)) E).
+Qed.
